@@ -21,7 +21,8 @@ RULE = ("A real device with ChangeOfValueServices holding analog-value (COV incr
         "set. Non-trivial: timeline with a renewal, a cancellation or expiry followed by a change, or >= 2 subscriptions on one "
         "object. Distinct by the operation list."
         " Also: operations that refer back to earlier subscriptions (renew / cancel / write) and a renewal matrix of (old, new) lifetimes."
-        " Sub-increment drift reported by a renewal, then steps measured from it.")
+        " Sub-increment drift reported by a renewal, then steps measured from it."
+        " One reduced copy of a generated shard runs with the library's debug tracing switched on (label tracing-on).")
 ASSUMPTIONS = [
     "same-instant bursts: the library coalesces changes made before the event loop runs; 1..k notifications are accepted, the last carrying the final values",
     "analog objects with several subscriptions: 'last reported value' may be read per subscription or per object; a notification is required "
